@@ -271,7 +271,10 @@ pub fn judge_server(history: &[Ev], o: &Outcome) -> Vec<(String, String)> {
     // a "no more requests" answer while an acceptable request is waiting
     for (i, step) in o.steps.iter().enumerate() {
         if step.accept == Some(AcceptResult::None) {
-            let later: Vec<u64> = o.steps[i + 1..].iter().filter_map(|s| if let Some(AcceptResult::Stream(id)) = s.accept { Some(id) } else { None }).collect();
+            // only requests that had ARRIVED when None was answered count: one that arrives later (below the
+            // identifier, out of stream-ID order) must still be served, which is what a later Stream(id) is
+            let arrived_by_then: Vec<u64> = history.iter().take(i + 1).filter_map(|e| if let Ev::Arrive(id) = e { Some(*id) } else { None }).collect();
+            let later: Vec<u64> = o.steps[i + 1..].iter().filter_map(|s| if let Some(AcceptResult::Stream(id)) = s.accept { Some(id) } else { None }).filter(|id| arrived_by_then.contains(id)).collect();
             if !later.is_empty() {
                 out.push((
                     "C08:server:no-more-requests-answered-while-acceptable-request-pending".into(),
